@@ -1,25 +1,34 @@
-(* Preservation of the overlay invariant of SemLive.v, part B: L3 (unflagged registered blockers), L2 (flagged ones). *)
+(* Preservation of the overlay invariant of SemLive.v, part B: L3 (unflagged registered blockers).
+   Each lemma is assembled from one lemma per control point of the stepping actor (files SemLiveL3.v;
+   the proof script of the clause is an Ltac in SemLiveTac.v). *)
 From Coq Require Import List Arith ZArith Bool Lia.
 Import ListNotations.
-Require Import MayV.Sync.SemModel MayV.Sync.SemInv MayV.Sync.SemTac MayV.Sync.SemLive MayV.Sync.SemLiveA.
+Require Import MayV.Sync.SemModel MayV.Sync.SemInv MayV.Sync.SemTac MayV.Sync.SemCase MayV.Sync.SemLive.
+Require Export MayV.Sync.SemLiveTac.
+Require Import MayV.Sync.SemLiveL3.
 Open Scope Z_scope.
-
-Ltac upd_hyps := repeat match goal with
-  | H : context [upd ?f ?i ?v ?i] |- _ => rewrite (upd_eq f i v) in H
-  | H : context [upd ?f ?i ?v ?j] |- _ => rewrite (upd_neq f i j v) in H by (first [assumption | congruence | lia])
-  end.
-Ltac ctxsplit s a := try (destruct (actx (A s a)) eqn:Ectx; cbn [ret_pc] in * ).
-Ltac pcs := repeat match goal with E : apc _ = _ |- _ => rewrite E in * end; cbn [apc actx] in *.
 
 Lemma pres_L3 s o ac s' : Inv s -> LInv s o -> step s ac = Some s' -> L3 s' (lstep s o ac).
 Proof.
-  intros Hi HL H. pose proof (IL3 _ _ HL) as P3. unfold L3, att, own, attpc, inpark in *.
-  lsetup Hi H; intro x; pose proof (P3 x) as Px; pose proof (P3 (ab (A s a))) as Pb; pose proof (P3 (aw (A s a))) as Pw.
-  all: a_facts Hi a; b_facts Hi x; b_facts Hi (ab (A s a)); b_facts Hi (aw (A s a)); b_facts Hi (nextb s).
-  all: unfold set_pc, set_ctx, set_res, set_av; upd_tac; upd_hyps; prj_all; lists.
-  all: repeat match goal with e : ?v = _ |- _ => is_var v; subst v end.
-  all: repeat match goal with e : owner _ = _ |- _ => progress (rewrite e in * ) end.
-  all: ctxsplit s a; pcs.
-  all: intros; brk; arith_prem; brk; try mem.
-  all: destruct Px as [[Px _]|Px]; [subst x|mem]; destruct (rel (Bk s (ab (A s a)))) eqn:Erel; brk; mem.
+  intros Hi HL H. destruct (is_step ac) eqn:Hn; [|eapply pres_L3_env; eassumption].
+  destruct ac as [a t|a|a|a|a|a]; try discriminate Hn. destruct (apc (A s a)) eqn:Epc.
+  - rewrite (step_idle s a Epc) in H. discriminate H.
+  - eapply pres_L3_W0; eassumption.
+  - eapply pres_L3_W0c; eassumption.
+  - eapply pres_L3_W1; eassumption.
+  - eapply pres_L3_W2; eassumption.
+  - eapply pres_L3_WP; eassumption.
+  - eapply pres_L3_WW; eassumption.
+  - eapply pres_L3_E1; eassumption.
+  - eapply pres_L3_E2; eassumption.
+  - eapply pres_L3_E3; eassumption.
+  - eapply pres_L3_E4; eassumption.
+  - eapply pres_L3_P0; eassumption.
+  - eapply pres_L3_K1; eassumption.
+  - eapply pres_L3_K2; eassumption.
+  - eapply pres_L3_K3; eassumption.
+  - eapply pres_L3_K4; eassumption.
+  - eapply pres_L3_Y0; eassumption.
+  - eapply pres_L3_Y0c; eassumption.
+  - eapply pres_L3_G0; eassumption.
 Qed.
